@@ -107,7 +107,18 @@ def run(ctx):
     for nid, ev in b.all_events('write'):
         if ev[1] == ('v', outp['id'], outp['n']):
             n_ = Tb.node(ev[2])
-            if n_[0] == 'mod' and n_[2] == q and Tb.node(n_[1])[0] == 'add':
+
+            def is_sum(x, d=0):
+                # a sum, or the loop-carried accumulator of one (reduced in every round or once at the end)
+                xn = Tb.node(x)
+                if xn[0] == 'add':
+                    return True
+                if xn[0] == 'mod' and xn[2] == q:
+                    return is_sum(xn[1], d + 1)
+                if xn[0] == 'phi' and d < 4:
+                    return any(is_sum(y, d + 1) for y in Tb.phi_src.get((xn[1], xn[2]), ()))
+                return False
+            if n_[0] == 'mod' and n_[2] == q and is_sum(n_[1]):
                 okr = True
     r17c(ctx)
     (ctx.ok if okr else ctx.bad)('R17b', 'R17b:Flip_twoparty:sum', 'result accumulates the shares modulo q' if okr else 'result is not the sum of the shares modulo q', flip)
